@@ -93,6 +93,10 @@ fn time_parts() -> Vec<(&'static str, bool)> {
         ("h時m分 a", false),
         ("hh–mm–ss a", false),
         ("HH:mm:ss€", false),
+        // a 24-hour and a 12-hour field together (the 24-hour field decides)
+        ("HH:mm:ss (hh)", false),
+        ("kk (KK) mm:ss.nnnnn", true),
+        ("H 'or' h:mm:ss a", false),
     ]
 }
 
